@@ -2643,7 +2643,279 @@ def _derived(fi: FuncInfo, node) -> FuncInfo:
     return v
 
 
-def _make_view(repo, fi: FuncInfo, _level: int = 0) -> FuncInfo:
+# ------------------------------------------------------------------------------------ selections: first-match scans and dispatch tables
+def _never_none(fi: FuncInfo, e: ast.AST) -> bool:
+    """The expression certainly does not evaluate to None: a container / string / number literal, a lambda, partial(...), a method of the own class."""
+    e = strip_cast(e)
+    if isinstance(e, (ast.Tuple, ast.List, ast.Dict, ast.Set, ast.Lambda, ast.JoinedStr)):
+        return True
+    if isinstance(e, ast.Constant):
+        return e.value is not None
+    if isinstance(e, ast.Call):
+        return (_std_callee(fi, e.func) or ("", ""))[1] == "partial"
+    if isinstance(e, ast.Attribute) and isinstance(e.value, ast.Name) and e.value.id == "self" and fi.cls is not None:
+        return any(e.attr in c.methods for c in fi.cls.mro())
+    if isinstance(e, ast.Name) and not is_param(fi, e.id):
+        ds = local_defs(fi, e.id)
+        return not ds and any(isinstance(n, (ast.FunctionDef, ast.AsyncFunctionDef)) and n.name == e.id for n in fi.node.body)
+    return False
+
+
+class _Selections:
+    """
+    A value picked from an ordered literal table and acted upon is written out as the cascade it computes:
+
+      X = next((OUT for PAT in ROWS if COND), DEFAULT)   ->  if COND[row 1]: X = OUT[row 1] elif COND[row 2]: ... else: X = DEFAULT
+      (ROWS a literal tuple / list of rows, directly or through a once-bound local; every row element is a pure expression over
+      once-bound names, so evaluating it where the row is tried instead of where the table is built gives the same value)
+      ... followed directly by `if X is None: A else: B` / `if X is not None: B [else: A]`: the test is decided per branch (OUT is never
+      None) and B / A move into the branches, X replaced by the row's OUT in B;
+      {k1: v1, k2: v2}.get(E) is [not] None  ->  E [not] in (k1, k2)   (values never None);
+      {k1: v1, ...}.get(E)(args) as a statement under that test -> if E == k1: v1(args) elif E == k2: v2(args) else: <as written>;
+      partial(f, *a, **k)(*b) -> f(*a, *b, **k);  (a, b, ...)[i] -> the element;  a call of a local single-`return` closure with
+      plain arguments -> the returned expression.
+    The statements run in the same order on every path, so a verdict about the view is a verdict about the function.
+    """
+
+    def __init__(self, repo, fi: FuncInfo, node) -> None:
+        self.repo, self.fi, self.node, self.changed = repo, fi, node, False
+        self.closures = {}
+        for st in node.body:
+            if isinstance(st, ast.FunctionDef) and not st.decorator_list and not local_defs(fi, st.name) and not is_param(fi, st.name) \
+                    and sum(1 for s2 in ast.walk(node) if isinstance(s2, (ast.FunctionDef, ast.AsyncFunctionDef)) and s2.name == st.name) == 1:
+                body = [s for s in st.body if not (isinstance(s, ast.Expr) and isinstance(s.value, ast.Constant))]
+                a = st.args
+                if len(body) == 1 and isinstance(body[0], ast.Return) and body[0].value is not None and not a.vararg and not a.kwarg and not a.kwonlyargs \
+                        and not a.defaults and not any(isinstance(x, (ast.Yield, ast.YieldFrom, ast.Await, ast.NamedExpr, ast.Lambda)) for x in ast.walk(body[0].value)):
+                    self.closures[st.name] = ([p.arg for p in a.posonlyargs + a.args], body[0].value)
+
+    # -- pure, re-evaluable expressions
+    def _stable_name(self, name: str) -> bool:
+        if name in ("self", "cls", "None", "True", "False"):
+            return True
+        ds = local_defs(self.fi, name)
+        if is_param(self.fi, name):
+            return not ds
+        return len(ds) <= 1
+
+    def _pure(self, e: ast.AST) -> bool:
+        for x in ast.walk(e):
+            if isinstance(x, (ast.Await, ast.Yield, ast.YieldFrom, ast.NamedExpr, ast.Starred, ast.GeneratorExp, ast.ListComp, ast.SetComp, ast.DictComp)):
+                return False
+            if isinstance(x, ast.Name) and not self._stable_name(x.id):
+                return False
+            if isinstance(x, ast.Call):
+                sc = _std_callee(self.fi, x.func)
+                if sc is not None and sc == ("functools", "partial"):
+                    continue
+                if isinstance(x.func, ast.Name) and x.func.id == "cast" and len(x.args) == 2:
+                    continue
+                if isinstance(x.func, ast.Attribute) and x.func.attr == "get" and len(x.args) in (1, 2) and not x.keywords \
+                        and self._is_table(x.func.value):
+                    continue
+                return False
+        return True
+
+    def _is_table(self, e: ast.AST) -> bool:
+        """A dict of the own object (self.<attr> set to a dict in __init__), directly or through a once-bound local: .get() is pure and total."""
+        e = resolve(self.fi, e)
+        if isinstance(e, ast.Dict):
+            return True
+        ch = chain(e) or ""
+        return ch.startswith("self.") and ch.count(".") == 1
+
+    def _rows(self, it: ast.AST):
+        it = strip_cast(it)
+        if isinstance(it, ast.Name):
+            d = single_def(self.fi, it.id)
+            if d is None or d[1] is not None:
+                return None
+            it = strip_cast(d[0])
+        if not isinstance(it, (ast.Tuple, ast.List)) or not it.elts or len(it.elts) > 12:
+            return None
+        if not all(self._pure(r) for r in it.elts):
+            return None
+        return list(it.elts)
+
+    # -- expression folds
+    def _fold(self, e: ast.AST) -> ast.AST:
+        outer = self
+
+        class F(ast.NodeTransformer):
+            def visit_FunctionDef(self, n):
+                return n
+
+            def visit_Call(self, n: ast.Call):
+                self.generic_visit(n)
+                f = n.func
+                if isinstance(f, ast.Call) and _std_callee(outer.fi, f.func) == ("functools", "partial") and f.args \
+                        and not any(isinstance(a, ast.Starred) for a in [*f.args, *n.args]) and all(k.arg for k in [*f.keywords, *n.keywords]) \
+                        and not {k.arg for k in f.keywords} & {k.arg for k in n.keywords}:
+                    outer.changed = True
+                    return ast.copy_location(ast.Call(func=f.args[0], args=[*f.args[1:], *n.args], keywords=[*f.keywords, *n.keywords]), n)
+                if isinstance(f, ast.Name) and f.id in outer.closures and not n.keywords and len(n.args) == len(outer.closures[f.id][0]) \
+                        and all(isinstance(strip_cast(a), (ast.Name, ast.Constant)) or chain(strip_cast(a)) for a in n.args):
+                    ps, body = outer.closures[f.id]
+                    outer.changed = True
+                    out = _Subst(dict(zip(ps, n.args))).visit(clone(body))
+                    return self.visit(ast.copy_location(out, n))
+                return n
+
+            def visit_Subscript(self, n: ast.Subscript):
+                self.generic_visit(n)
+                if isinstance(n.ctx, ast.Load) and isinstance(n.value, ast.Tuple) and isinstance(n.slice, ast.Constant) and type(n.slice.value) is int \
+                        and 0 <= n.slice.value < len(n.value.elts) and not any(isinstance(x, ast.Starred) for x in n.value.elts) and outer._pure(n.value):
+                    outer.changed = True
+                    return n.value.elts[n.slice.value]
+                return n
+
+            def visit_Compare(self, n: ast.Compare):
+                self.generic_visit(n)
+                if len(n.ops) == 1 and isinstance(n.ops[0], (ast.Is, ast.IsNot)) and isinstance(n.comparators[0], ast.Constant) and n.comparators[0].value is None:
+                    d = outer._dispatch(n.left)
+                    if d is not None and d[2] is None:
+                        keys, vals, _dflt, subj = d
+                        outer.changed = True
+                        return ast.copy_location(ast.Compare(left=subj, ops=[ast.In() if isinstance(n.ops[0], ast.IsNot) else ast.NotIn()],
+                                                             comparators=[ast.Tuple(elts=keys, ctx=ast.Load())]), n)
+                return n
+        return F().visit(e)
+
+    def _dispatch(self, e: ast.AST):
+        """(keys, values, default | None, subject) for `{k: v, ...}.get(E[, D])` with distinct constant keys, never-None values and a pure subject."""
+        e = strip_cast(e)
+        if not (isinstance(e, ast.Call) and isinstance(e.func, ast.Attribute) and e.func.attr == "get" and isinstance(e.func.value, ast.Dict)
+                and len(e.args) in (1, 2) and not e.keywords):
+            return None
+        d = e.func.value
+        if not d.keys or any(k is None for k in d.keys):
+            return None
+        consts = []
+        for k in d.keys:
+            v = self.repo.resolve_const(self.fi.module, k, self.fi.cls)
+            if not isinstance(v, (int, str, bytes)) or isinstance(v, bool):
+                return None
+            consts.append(v)
+        if len(set(consts)) != len(consts) or len({type(c) for c in consts}) != 1:
+            return None
+        if not all(_never_none(self.fi, v) and self._pure(v) for v in d.values) or not self._pure(e.args[0]) or not chain(strip_cast(e.args[0])):
+            return None
+        dflt = e.args[1] if len(e.args) == 2 else None
+        if dflt is not None and isinstance(dflt, ast.Constant) and dflt.value is None:
+            dflt = None
+        elif dflt is not None:
+            return None
+        return list(d.keys), list(d.values), dflt, e.args[0]
+
+    # -- statements
+    def run(self):
+        self.node.body = self.block(self.node.body)
+        return self.node
+
+    def block(self, stmts: list) -> list:
+        out, i = [], 0
+        while i < len(stmts):
+            st = stmts[i]
+            nxt = stmts[i + 1] if i + 1 < len(stmts) else None
+            rep = self._scan(st, nxt)
+            if rep is not None:
+                new, used = rep
+                self.changed = True
+                out.extend(self.block(new))
+                i += used
+                continue
+            if isinstance(st, (ast.FunctionDef, ast.AsyncFunctionDef, ast.ClassDef)):
+                out.append(st)
+                i += 1
+                continue
+            for fld in ("body", "orelse", "finalbody"):
+                if isinstance(getattr(st, fld, None), list) and getattr(st, fld) and isinstance(getattr(st, fld)[0], ast.stmt):
+                    setattr(st, fld, self.block(getattr(st, fld)))
+            for h in getattr(st, "handlers", []):
+                h.body = self.block(h.body)
+            for fld, v in list(ast.iter_fields(st)):
+                if isinstance(v, ast.expr):
+                    setattr(st, fld, self._fold(v))
+                elif isinstance(v, list) and v and isinstance(v[0], ast.expr):
+                    setattr(st, fld, [self._fold(x) for x in v])
+            d = self._dispatch_stmt(st)
+            if d is not None:
+                self.changed = True
+                out.extend(d)
+            else:
+                out.append(st)
+            i += 1
+        return out
+
+    def _dispatch_stmt(self, st: ast.stmt):
+        if not (isinstance(st, ast.Expr) and isinstance(st.value, ast.Call)):
+            return None
+        d = self._dispatch(st.value.func)
+        if d is None or any(isinstance(a, ast.Starred) for a in st.value.args):
+            return None
+        keys, vals, _dflt, subj = d
+        node = ast.Expr(value=st.value)
+        for k, v in reversed(list(zip(keys, vals))):
+            c = ast.Call(func=clone(v), args=[clone(a) for a in st.value.args], keywords=[ast.keyword(arg=kw.arg, value=clone(kw.value)) for kw in st.value.keywords])
+            node = ast.If(test=ast.Compare(left=clone(subj), ops=[ast.Eq()], comparators=[clone(k)]), body=[ast.Expr(value=c)], orelse=[node])
+        return [ast.copy_location(node, st)]
+
+    def _scan(self, st: ast.stmt, nxt):
+        if isinstance(st, ast.Assign) and len(st.targets) == 1 and isinstance(st.targets[0], ast.Name):
+            x, val = st.targets[0].id, strip_cast(st.value)
+        elif isinstance(st, ast.AnnAssign) and isinstance(st.target, ast.Name) and st.value is not None:
+            x, val = st.target.id, strip_cast(st.value)
+        else:
+            return None
+        if not (isinstance(val, ast.Call) and isinstance(val.func, ast.Name) and val.func.id == "next" and len(val.args) == 2 and not val.keywords
+                and isinstance(val.args[0], ast.GeneratorExp) and len(val.args[0].generators) == 1):
+            return None
+        gen = val.args[0].generators[0]
+        dflt = val.args[1]
+        if gen.is_async or not (isinstance(dflt, ast.Constant) or self._pure(dflt)):
+            return None
+        rows = self._rows(gen.iter)
+        if rows is None:
+            return None
+        out_e = val.args[0].elt
+        pat_names = {n.id for n in ast.walk(gen.target) if isinstance(n, ast.Name)}
+        for e in [out_e, *gen.ifs]:
+            for n in ast.walk(e):
+                if isinstance(n, (ast.Await, ast.Yield, ast.YieldFrom, ast.NamedExpr, ast.Lambda, ast.GeneratorExp, ast.ListComp, ast.SetComp, ast.DictComp)):
+                    return None
+        branches = []
+        for r in rows:
+            m = {}
+            if not _bind_target(gen.target, strip_cast(r), m) or set(m) != pat_names:
+                return None
+            cond = [self._fold(_Subst(m).visit(clone(c))) for c in gen.ifs]
+            test = cond[0] if len(cond) == 1 else ast.BoolOp(op=ast.And(), values=cond) if cond else ast.Constant(value=True)
+            branches.append((test, self._fold(_Subst(m).visit(clone(out_e)))))
+        # the following `if X is [not] None` decided per branch
+        sink = None
+        if isinstance(nxt, ast.If) and isinstance(nxt.test, ast.Compare) and len(nxt.test.ops) == 1 and isinstance(nxt.test.ops[0], (ast.Is, ast.IsNot)) \
+                and isinstance(nxt.test.left, ast.Name) and nxt.test.left.id == x and isinstance(nxt.test.comparators[0], ast.Constant) \
+                and nxt.test.comparators[0].value is None and isinstance(dflt, ast.Constant) and dflt.value is None \
+                and all(_never_none(self.fi, o) and self._pure(o) for _, o in branches):
+            some, none = (nxt.body, nxt.orelse) if isinstance(nxt.test.ops[0], ast.IsNot) else (nxt.orelse, nxt.body)
+            rebinds = {n.id for s in some for n in ast.walk(s) if isinstance(n, ast.Name) and isinstance(n.ctx, (ast.Store, ast.Del))}
+            reads = {n.id for _, o in branches for n in ast.walk(o) if isinstance(n, ast.Name)}
+            if x not in rebinds and not (rebinds & reads):
+                sink = (some, none)
+
+        def assign(v):
+            return ast.copy_location(ast.Assign(targets=[ast.Name(id=x, ctx=ast.Store())], value=v, type_comment=None), st)
+        tail = [assign(clone(dflt))] + ([clone(s) for s in sink[1]] if sink else [])
+        node = tail
+        for test, o in reversed(branches):
+            body = [assign(o)]
+            if sink:
+                body += [_Subst({x: o}).visit(clone(s)) for s in sink[0]]
+            node = [ast.copy_location(ast.If(test=test, body=body, orelse=node), st)]
+        return node, (2 if sink else 1)
+
+
+def _make_view0(repo, fi: FuncInfo, _level: int = 0) -> FuncInfo:
     interesting = False
     if _level < 4 and _has_cm_with(repo, fi):
         node0 = clone(fi.node)
@@ -2652,7 +2924,7 @@ def _make_view(repo, fi: FuncInfo, _level: int = 0) -> FuncInfo:
         cm = _CmDesugar(repo, v0, node0)
         node0.body = cm.block(node0.body)
         if cm.changed:
-            return _make_view(repo, _derived(fi, node0), _level + 1)
+            return _make_view0(repo, _derived(fi, node0), _level + 1)
     if _level < 4 and _may_call_foreign(repo, fi):
         node0 = clone(fi.node)
         set_parents(node0)
@@ -2660,7 +2932,7 @@ def _make_view(repo, fi: FuncInfo, _level: int = 0) -> FuncInfo:
         inl = _ForeignInliner(repo, v0, node0)
         inl.run()
         if inl.changed:
-            return _make_view(repo, _derived(fi, node0), _level + 1)
+            return _make_view0(repo, _derived(fi, node0), _level + 1)
     if any(isinstance(n, ast.For) and isinstance(strip_cast(n.iter), (ast.GeneratorExp, ast.ListComp, ast.Call)) or
            isinstance(n, ast.Assign) and isinstance(strip_cast(n.value), (ast.ListComp, ast.Call)) and len(n.targets) == 1 and isinstance(n.targets[0], ast.Name)
            for n in walk_no_nested(fi.node)):
@@ -2668,7 +2940,7 @@ def _make_view(repo, fi: FuncInfo, _level: int = 0) -> FuncInfo:
         lp = _LoopPipelines(fi, node0)
         node0.body = lp.block(node0.body)
         if lp.changed:
-            return _make_view(repo, _derived(fi, node0))
+            return _make_view0(repo, _derived(fi, node0))
     if any(isinstance(n, ast.Match) for n in ast.walk(fi.node)):
         node0 = clone(fi.node)
         md = _MatchDesugar(repo, fi)
@@ -2678,7 +2950,7 @@ def _make_view(repo, fi: FuncInfo, _level: int = 0) -> FuncInfo:
             set_parents(node0)
             v0 = FuncInfo(fi.name, fi.qualname, node0, fi.module, fi.cls)
             node0._info = v0  # type: ignore[attr-defined]
-            v1 = _make_view(repo, v0)
+            v1 = _make_view0(repo, v0)
             return v1
     for n in ast.walk(fi.node):
         if isinstance(n, ast.For) and (isinstance(strip_cast(n.iter), (ast.Tuple, ast.List, ast.Dict, ast.Name, ast.Attribute))
@@ -2722,6 +2994,32 @@ def _make_view(repo, fi: FuncInfo, _level: int = 0) -> FuncInfo:
     set_parents(node)
     v = FuncInfo(fi.name, fi.qualname, node, fi.module, fi.cls)
     node._info = v  # type: ignore[attr-defined]
+    return v
+
+
+def _selection_candidate(fi: FuncInfo) -> bool:
+    for n in ast.walk(fi.node):
+        if isinstance(n, ast.Call):
+            f = n.func
+            if isinstance(f, ast.Name) and f.id == "next" and n.args and isinstance(n.args[0], ast.GeneratorExp) or isinstance(f, ast.Call) \
+                    or isinstance(f, ast.Attribute) and f.attr == "get" and isinstance(f.value, ast.Dict):
+                return True
+    return False
+
+
+def _make_view(repo, fi: FuncInfo, _level: int = 0) -> FuncInfo:
+    v = _make_view0(repo, fi, _level)
+    for _ in range(3):
+        if not _selection_candidate(v):
+            break
+        node = clone(v.node)
+        set_parents(node)
+        sel = _Selections(repo, v, node)
+        sel.run()
+        if not sel.changed:
+            break
+        ast.fix_missing_locations(node)
+        v = _make_view0(repo, _derived(fi, node), 0)
     return v
 
 
